@@ -153,9 +153,19 @@ def main():
             exit_code = 2
     for r in inconclusive_opt:
         print("not explored (optional harness) %s: %s" % (r["harness"], r["verdict"]))
+    extra = None
+    if prop == "C05" and not a.only:
+        # second engine of this property: one interpreter step per combinator from MIR (vlib/c05arms.py)
+        from vlib import c05arms
+        arc, extra, areplays = c05arms.check(lambda s: print(s, flush=True), a.tier)
+        if arc == 1:
+            exit_code = 1
+            violations = list(violations) + [("arms", p) for p in areplays]
+        elif arc == 2 and exit_code == 0:
+            exit_code = 2
     write_evidence(prop, spec, a.tier, seed, results, time.time() - t0,
                    violations=len([1 for v in violations]), known=[k["id"] for (k, _, _) in known_hits],
-                   build_s=build_s)
+                   build_s=build_s, extra=extra)
     ok = sum(1 for r in results if r["verdict"] == "ok")
     print("[%s] %d/%d harnesses verified, %d violation(s), %d inconclusive core, %d optional unexplored, %.0fs -> exit %d" % (
         prop, ok, len(results), len(violations), len(inconclusive_core), len(inconclusive_opt),
@@ -180,7 +190,7 @@ def evidence_dir():
     return d
 
 
-def write_evidence(prop, spec, tier, seed, results, wall, violations=0, known=(), build_s=0.0, note=""):
+def write_evidence(prop, spec, tier, seed, results, wall, violations=0, known=(), build_s=0.0, note="", extra=None):
     ok = [r for r in results if r["verdict"] == "ok"]
     checks = sum((r.get("checks") or 0) for r in results)
     discharged = sum((r.get("checks") or 0) for r in ok)
@@ -226,6 +236,14 @@ def write_evidence(prop, spec, tier, seed, results, wall, violations=0, known=()
         "wall_s": round(wall, 1),
         "violations": violations,
     }
+    if extra:
+        ev["coverage"]["interpreter_arms"] = extra
+        ev["coverage"]["evaluations"] += len(extra.get("queries", []))
+        ev["coverage"]["obligations"] += len(extra.get("queries", []))
+        ev["coverage"]["discharged"] += len([q for q in extra.get("queries", []) if q.get("verdict") == "holds"])
+        ev["coverage"]["solver_time_s"] = round(ev["coverage"]["solver_time_s"] + extra.get("solver_time_s", 0), 2)
+        if extra.get("unexplored"):
+            ev["coverage"]["unexplored"] = extra["unexplored"]
     with open(os.path.join(evidence_dir(), "%s.json" % prop), "w") as f:
         json.dump(ev, f, indent=1)
 
